@@ -55,6 +55,18 @@ class System:
         for a in range(self.nA):
             for i in range(self.W):
                 ops.append(dict(op="M", az=a, i=i))
+        if root.get("reaccept"):
+            for a in range(self.nA):
+                for i in range(self.W):
+                    ops.append(dict(op="A", az=a, i=i))     # manual re-acceptance (masks set by hand)
+            # a compound manual edit: reject one window and re-accept one on ANOTHER azimuth in one
+            # step - the total number of accepted windows stays, their split over the azimuths changes
+            for a in range(self.nA):
+                for b in range(self.nA):
+                    if a != b:
+                        for i in range(self.W):
+                            for j in range(self.W):
+                                ops.append(dict(op="X", az=a, i=i, az2=b, j=j))
         for r in ((None, None), (f[1], f[F - 2]), (None, f[3]), (f[2], None)):
             ops.append(dict(op="U", rng=list(r)))
         ops.append(dict(op="U", rng=[None, None], kw={"height": [None, 3.6]}))
@@ -66,6 +78,8 @@ class System:
         for m in itertools.product((True, False), repeat=self.W):
             if sum(m) >= 1 and not all(m):
                 ops.append(dict(op="T", mask=list(m)))
+        if root.get("ops_subset") == "MA":
+            ops = [op for op in ops if op["op"] in ("M", "A", "X")]
         self.ops = ops
 
     def _make(self, csets, az=None):
@@ -85,6 +99,18 @@ class System:
                 t = o.hvsrs[op["az"]]
                 t.valid_window_boolean_mask[op["i"]] = False
                 t.valid_peak_boolean_mask[op["i"]] = False
+            elif op["op"] == "X":
+                t, t2 = o.hvsrs[op["az"]], o.hvsrs[op["az2"]]
+                t.valid_window_boolean_mask[op["i"]] = False
+                t.valid_peak_boolean_mask[op["i"]] = False
+                if not math.isnan(float(t2._main_peak_frq[op["j"]])):
+                    t2.valid_window_boolean_mask[op["j"]] = True
+                    t2.valid_peak_boolean_mask[op["j"]] = True
+            elif op["op"] == "A":
+                t = o.hvsrs[op["az"]]
+                if not math.isnan(float(t._main_peak_frq[op["i"]])):
+                    t.valid_window_boolean_mask[op["i"]] = True
+                    t.valid_peak_boolean_mask[op["i"]] = True
             elif op["op"] == "U":
                 o.update_peaks_bounded(search_range_in_hz=tuple(op["rng"]), find_peaks_kwargs=op.get("kw"))
                 h.rng, h.kw = tuple(op["rng"]), op.get("kw")
@@ -292,6 +318,25 @@ def roots(tier, seed):
         3: [["p2", "p4", "p3"], ["p1", "twopk", "p5"], ["p3", "p3", "p4"], ["q3", "p2", "tie"]],
         4: [["p2", "p4", "twopk", "p3"], ["p1", "p5", "p3", "q3"], ["p2", "p2", "p4", "p5"]],
     }
+    # histories that LOOK at the statistics between operations (caches), with manual re-acceptance,
+    # and curve sets whose accepted windows all resonate at one frequency (true std exactly 0)
+    same = [["p3", "p3", "p3"], ["p3", "p3", "p3"]]
+    if tier == "quick":
+        out.append(dict(grid="lin", F=7, shapes_by_az=[S[2][0], S[2][1]], depth=3, touch=True, reaccept=True,
+                        ops_subset="MA"))
+        out.append(dict(grid="lin", F=7, shapes_by_az=[S[3][0], S[3][1]], depth=2, touch=True, reaccept=True))
+        out.append(dict(grid="lin", F=7, shapes_by_az=same, depth=1))
+        out.append(dict(grid="fine", F=7, shapes_by_az=[S[3][0], S[3][2]], depth=1))
+    else:
+        for W in (2, 3):
+            out.append(dict(grid="lin", F=7, shapes_by_az=[S[W][0], S[W][1]], depth=3, touch=True, reaccept=True,
+                            ops_subset="MA"))
+            out.append(dict(grid="lin", F=7, shapes_by_az=[S[W][0], S[W][1], S[W][2]], depth=3 if W == 2 else 2,
+                            touch=True, reaccept=True, ops_subset="MA"))
+            out.append(dict(grid="lin", F=7, shapes_by_az=[S[W][0], S[W][1]], depth=2, touch=True, reaccept=True))
+        out.append(dict(grid="lin", F=7, shapes_by_az=same, depth=2))
+        out.append(dict(grid="lin", F=7, shapes_by_az=same + [["p3", "p3", "p3"]], depth=1))
+        out.append(dict(grid="fine", F=7, shapes_by_az=[S[3][0], S[3][2]], depth=2))
     if tier == "quick":
         for W in (2, 3, 4):
             sets = S[W]
@@ -311,7 +356,7 @@ def roots(tier, seed):
 
 def run_root(root, ctx, tier):
     sysm = System(root)
-    explorer.bfs(sysm, root, root["depth"], ctx, key_prefix="C11")
+    explorer.bfs(sysm, root, root["depth"], ctx, key_prefix="C11", touch=bool(root.get("touch")))
     ctx.nontrivial_case((root["grid"], root["shapes_by_az"]))
     if len(ctx.samples) < 3:
         ctx.sample(dict(root=root, menu_size=len(sysm.ops), first_ops=sysm.ops[:2] + sysm.ops[-2:]))
